@@ -81,6 +81,72 @@ def _flat(x):
     return [x]
 
 
+def _prod(dims):
+    p = 1
+    for d in dims:
+        p *= d
+    return p
+
+
+def _nest(flat, dims):
+    if len(dims) == 1:
+        return list(flat)
+    step = _prod(dims[1:])
+    return [_nest(flat[i * step:(i + 1) * step], dims[1:]) for i in range(dims[0])]
+
+
+# Memory layouts / representations of an array with the same logical content (what nested tolist() reads)
+LAYOUTS = ['C', 'F', 'swap', 'strided', 'neg', 'offset', 'readonly', 'readonly_F', 'be']
+NUMBA_A_LAYOUTS = ['strided', 'neg', 'offset']          # one numba array type ('A' layout): one compilation for the three
+JIT_DATA_LAYOUTS = [x for x in LAYOUTS if x != 'be']    # the numba look-up ufunc is not given non-native byte orders
+SLICINGS = ['view', 'copy_c', 'copy_k', 'perbatch']
+WORD_SHAPES = [[2, 3], [3, 2], [2, 2], [2, 2, 2], [1, 2, 3], [2, 3, 1], [3, 1, 2]]
+
+
+def relayout(a, layout):
+    if layout == 'C' or a.size == 0:
+        return np.ascontiguousarray(a)
+    if layout == 'F':
+        return np.asfortranarray(a)
+    if layout == 'swap':                 # a transposed view: the last two axes are stored swapped
+        if a.ndim < 2:
+            return np.ascontiguousarray(a)
+        return np.ascontiguousarray(a.swapaxes(-1, -2)).swapaxes(-1, -2)
+    if layout == 'strided':              # every other element of a larger buffer, along every axis
+        big = np.zeros(tuple(2 * d for d in a.shape), dtype=a.dtype)
+        v = big[tuple(slice(None, None, 2) for _ in a.shape)]
+        v[...] = a
+        return v
+    if layout == 'neg':                  # negative strides along the first and the last axis
+        idx = (slice(None, None, -1),) + (slice(None),) * (a.ndim - 2) + ((slice(None, None, -1),) if a.ndim > 1 else ())
+        return np.ascontiguousarray(a[idx])[idx]
+    if layout == 'offset':               # a window inside a larger buffer (base offset, row stride larger than the row)
+        big = np.zeros(tuple(d + 3 for d in a.shape), dtype=a.dtype)
+        v = big[tuple(slice(1 + (i % 2), 1 + (i % 2) + d) for i, d in enumerate(a.shape))]
+        v[...] = a
+        return v
+    if layout in ('readonly', 'readonly_F'):
+        b = np.asfortranarray(a).copy(order='F') if layout == 'readonly_F' else np.ascontiguousarray(a).copy()
+        b.flags.writeable = False
+        return b
+    if layout == 'be':                   # big-endian storage (same values)
+        return a.astype(a.dtype.newbyteorder('>')) if a.dtype.itemsize > 1 else np.ascontiguousarray(a)
+    raise HarnessError(f'unknown layout {layout}')
+
+
+def batch_of(parent, logical, lo, hi, layout, slicing):
+    """The array handed to update() for rows lo..hi: a slice of the (re-laid-out) parent, or an independent array."""
+    if slicing == 'view':
+        return parent[lo:hi]
+    if slicing == 'copy_c':
+        return np.ascontiguousarray(parent[lo:hi]).copy()
+    if slicing == 'copy_k':
+        return parent[lo:hi].copy(order='K')
+    if slicing == 'perbatch':            # each batch is its own array in the requested layout
+        return relayout(logical[lo:hi], layout)
+    raise HarnessError(f'unknown slicing {slicing}')
+
+
 def _den(dtype):
     return 8 if dtype.startswith('float') else 1
 
@@ -238,7 +304,8 @@ OFFSETS = {'a': (1024, 1000 * 1024, 2048), 'b': (16, 65536 * 16, 64)}
 OFFSET_SIG = ('float32', 'float64')
 
 
-def make_case(rng, fam, sig, n, splits, mode, block, metric=None, auto=False, parts=None, tmode='static', offset=None):
+def make_case(rng, fam, sig, n, splits, mode, block, metric=None, auto=False, parts=None, tmode='static', offset=None,
+              dims=None, tlayout='C', dlayout='C', slicing='view'):
     tdtype, prec = sig
     S = rng.randint(1, 4)
     if offset:
@@ -252,7 +319,7 @@ def make_case(rng, fam, sig, n, splits, mode, block, metric=None, auto=False, pa
     case = {'fam': fam, 'prec': prec, 'tdtype': tdtype, 'tden': tden, 'S': S, 'traces': traces, 'splits': list(splits),
             'computes': compute_positions(rng, len(splits), mode), 'mode': mode, 'block': block, 'dden': 1, 'parts': [], 'auto': False}
     if fam in ('cpa', 'cpa_alt'):
-        W = rng.randint(1, 3)
+        W = _prod(dims) if dims else rng.randint(1, 3)
         ddtype = rng.choice(['uint8', 'uint8', 'int16', 'float32'])
         if ddtype == 'float32':
             dlo, dhi = -100, 100
@@ -260,11 +327,11 @@ def make_case(rng, fam, sig, n, splits, mode, block, metric=None, auto=False, pa
             dlo, dhi = _clip(ddtype, *((-63, 63) if prec == 'float32' else (-1000, 1000)))
         case.update(W=W, ddtype=ddtype, dden=_den(ddtype), data=gen_traces(rng, n, W, dlo, dhi))
     elif fam == 'dpa':
-        W = rng.randint(1, 3)
+        W = _prod(dims) if dims else rng.randint(1, 3)
         p1 = rng.choice([0.5, 0.5, 0.25, 0.75])
         case.update(W=W, ddtype='uint8', data=[[1 if rng.random() < p1 else 0 for _ in range(W)] for _ in range(n)])
     elif fam == 'part':
-        W = rng.randint(1, 3)
+        W = _prod(dims) if dims else rng.randint(1, 3)
         ddtype = rng.choice(['uint8', 'uint16', 'int16'])
         if auto:
             mx = rng.choice([1, 3, 8, 9, 12, 40, 63])
@@ -278,7 +345,7 @@ def make_case(rng, fam, sig, n, splits, mode, block, metric=None, auto=False, pa
         else:
             case.update(W=W, ddtype=ddtype, data=gen_class_data(rng, n, W, parts, 0.15, 255), parts=list(parts), metric=metric)
     elif fam == 'mia':
-        W = rng.randint(1, 3)
+        W = _prod(dims) if dims else rng.randint(1, 3)
         fl = tdtype.startswith('float')
         edges = uniform_edges(rng, fl) if not offset else ([998.0 + i for i in range(5)] if offset == 'a' else [65530.0 + 2 * i for i in range(6)])
         # some samples exactly on edges / outside the window
@@ -312,13 +379,25 @@ def make_case(rng, fam, sig, n, splits, mode, block, metric=None, auto=False, pa
         else:
             P = [[rng.randint(-8, 8) for _ in range(S)] for _ in range(S)]
         if tmode == 'dpa':
-            W = rng.randint(1, 3)
+            W = _prod(dims) if dims else rng.randint(1, 3)
             data = [[rng.choice(parts) for _ in range(W)] for _ in range(n)]
         else:
             W, data = 1, [[0] for _ in range(n)]
         case.update(W=W, ddtype='uint8', data=data, parts=list(parts), T=T, P=P, pden=pden, tmode=tmode)
     elif fam == 'ttest':
         case.update(W=0, ddtype='uint8', data=[[] for _ in range(n)])
+    # shape of the word axes of the data handed to update() (data.shape = (n,) + dims) and memory layout of both arrays
+    if dims and _prod(dims) == case['W']:
+        case['dims'] = list(dims)
+    else:
+        case['dims'] = [case['W']]
+    case.update(tlayout=tlayout, dlayout=dlayout, slicing=slicing)
+    if S > 2 and case['W'] > 3:          # keep the tables small
+        case['S'] = 2
+        case['traces'] = [r[:2] for r in case['traces']]
+        if fam == 'tmatch':
+            case['T'] = [r[:2] for r in case['T']]
+            case['P'] = [r[:2] for r in case['P'][:2]]
     return case
 
 
@@ -413,11 +492,14 @@ def expected_shape(case):
     fam, S, W = case['fam'], case['S'], case['W']
     if fam == 'ttest':
         return [S]
+    dims = case.get('dims') or [W]
     if fam == 'tbuild':
-        return [len(case['parts']), S]
+        K = len(case['parts'])
+        return [K, S] if len(dims) == 1 else dims + [K * S]       # base.compute reshapes to origin_shape[1:] + (-1,)
     if fam == 'tmatch':
-        return [len(case['parts'])] if case['tmode'] == 'static' else [W]
-    return [W, S]
+        G = len(case['parts']) if case['tmode'] == 'static' else W
+        return [G] if len(dims) == 1 else dims + [G // _prod(dims)]
+    return dims + [S]
 
 
 def run_case(case):
@@ -430,9 +512,17 @@ def run_case(case):
         da = np.zeros((n, 0), dtype='uint8')
     if list(tr.shape) != [n, case['S']] or list(da.shape) != [n, case['W']]:
         raise HarnessError('C01 harness: wrong array shape')
-    _check_export(tr, case['traces'], case['tden'], 'trace')
-    _check_export(da, case['data'], case['dden'], 'data')
-    tr0, da0 = tr.copy(), da.copy()
+    dims = case.get('dims') or [case['W']]
+    if case['W'] > 0 and len(dims) > 1:
+        da = _array([_nest(r, dims) for r in case['data']], case['ddtype'], case['dden'])      # built from nested lists, no reshape
+        if list(da.shape) != [n] + dims:
+            raise HarnessError('C01 harness: wrong data shape')
+    tl, dl, sl = case.get('tlayout', 'C'), case.get('dlayout', 'C'), case.get('slicing', 'view')
+    ptr, pda = relayout(tr, tl), relayout(da, dl)
+    _check_export(ptr, case['traces'], case['tden'], 'trace')          # the logical content, read through nested tolist()
+    _check_export(pda, case['data'], case['dden'], 'data')
+    tr0, da0 = np.array(ptr.tolist()), np.array(pda.tolist())
+    logical_tr, logical_da = tr, da
     obs = {'computes': [], 'twice_same': True, 'shapes_ok': True}
     with warnings.catch_warnings(), np.errstate(all='ignore'):
         warnings.simplefilter('ignore')
@@ -440,7 +530,7 @@ def run_case(case):
         last, fresh = None, False
         for op in history_ops(case):
             if op[0] == 'u':
-                o.update(tr[op[1]:op[2]], da[op[1]:op[2]])
+                o.update(batch_of(ptr, logical_tr, op[1], op[2], tl, sl), batch_of(pda, logical_da, op[1], op[2], dl, sl))
                 fresh = False
             else:
                 vals, shape = o.compute()
@@ -455,12 +545,13 @@ def run_case(case):
         if case['fam'] in ('part', 'mia', 'tbuild', 'tmatch'):
             obs['partitions'] = [int(v) for v in np.asarray(o.d.partitions).tolist()]
         o2 = _Obj(case)
-        o2.update(tr, da)
+        o2.update(ptr, pda)
         obs['oneshot'], _ = o2.compute()
         obs['oneshot_n'] = o2.processed()
         if case['fam'] == 'part' and case['auto']:
             obs['oneshot_partitions'] = [int(v) for v in np.asarray(o2.d.partitions).tolist()]
-    obs['inputs_unchanged'] = bool(np.array_equal(tr, tr0) and np.array_equal(da, da0))
+    obs['inputs_unchanged'] = bool(np.array_equal(np.array(ptr.tolist()), tr0) and np.array_equal(np.array(pda.tolist()), da0)
+                                   and np.array_equal(np.array(logical_tr.tolist()), tr0))
     return obs
 
 
@@ -672,6 +763,47 @@ class HistKind(Kind):
         """Overrides of the variants for the i-th case of the offset block."""
         return {}
 
+    def word_dims(self, rng, kw, shape=None):
+        """Word axes of the data: the families whose number of words is free take any shape; template build (one word) and static
+        matching (data ignored) take shapes of one element."""
+        one_word = self.fam == 'tbuild' or (self.fam == 'tmatch' and kw.get('tmode', 'static') == 'static')
+        if self.fam == 'ttest':
+            return None
+        if shape is None:
+            if rng.random() < 0.6:
+                return None
+            shape = rng.choice(WORD_SHAPES)
+        return [1] * len(shape) if one_word else list(shape)
+
+    def layout_choice(self, rng, kw):
+        """Word shape, memory layouts and slicing style of an ordinary case.  The numpy-only kinds take every layout for both
+        arrays; the kinds with compiled kernels keep C-ordered traces (each layout is another compilation) and vary the data:
+        data with >= 2 word axes in any layout (update() flattens them to a fresh C-ordered array), 2-D data C-ordered / read-only."""
+        dims = self.word_dims(rng, kw)
+        out = {'dims': dims, 'slicing': rng.choice(SLICINGS)}
+        if self.jit is None:
+            out['tlayout'] = rng.choice(LAYOUTS) if rng.random() < 0.5 else 'C'
+            out['dlayout'] = rng.choice(LAYOUTS) if rng.random() < 0.5 else 'C'
+        elif dims and len(dims) > 1:
+            out['dlayout'] = rng.choice(JIT_DATA_LAYOUTS) if rng.random() < 0.7 else 'C'
+        else:
+            out['dlayout'] = rng.choice(['C', 'C', 'readonly'])
+        return out
+
+    def layout_block(self, lay, shape, slicing, kw, tier):
+        """The case of the memory-layout block for layout [lay]."""
+        out = {'dims': self.word_dims(None, kw, shape), 'slicing': slicing}
+        if self.jit is None:
+            out.update(tlayout=lay, dlayout=lay)
+            return out
+        out['dlayout'] = lay if lay in JIT_DATA_LAYOUTS else 'C'
+        # traces: the three strided views share one numba array type (one more compilation per kernel); thorough: F / read-only too
+        allowed = NUMBA_A_LAYOUTS if tier == 'quick' else NUMBA_A_LAYOUTS + ['F', 'readonly', 'readonly_F']
+        if self.jit == 'heavy' and tier == 'quick':
+            allowed = []                 # template build: both kernels, ~10 s per array type
+        out['tlayout'] = lay if lay in allowed else 'C'
+        return out
+
     def sigs(self, tier):
         if self.jit is None:
             return [(t, p) for t in TDT for p in PRECS]
@@ -692,7 +824,9 @@ class HistKind(Kind):
 
         def mk(n, splits, mode, block):
             sig = nxt()
-            return make_case(rng, self.fam, sig, n, splits, mode, block, **self.variants(rng, sig, sig in self._heavy))
+            kw = self.variants(rng, sig, sig in self._heavy)
+            kw.update(self.layout_choice(rng, kw))
+            return make_case(rng, self.fam, sig, n, splits, mode, block, **kw)
 
         # --- deterministic boundary block: batch of 1 first, batch of 1 last, compute between 2nd and 3rd batch, single batch
         for rep in range(1 if quick else 4):
@@ -706,6 +840,17 @@ class HistKind(Kind):
                 yield self._with_computes(mk(n, [n], 'none', 'single_batch_twice'), [2])
                 yield mk(n, [1] * n, 'every' if n <= 12 else 'subset', 'all_ones')
             yield self._with_computes(mk(4, [1, 2, 1], 'none', 'sizes_1_2_1'), [1, 1, 1])
+            # memory layout / representation of the arrays handed to update(): every layout x word shapes of 2 and 3 axes (equal
+            # and unequal dimensions) x slicing styles (views of ONE parent array, independent copies, per-batch arrays)
+            for i, lay in enumerate(LAYOUTS):
+                for j in range(2):
+                    k = 2 * i + j
+                    kw = self.variants(rng, OFFSET_SIG, False)
+                    kw.pop('auto', None)
+                    kw.update(self.layout_block(lay, WORD_SHAPES[k % len(WORD_SHAPES)], SLICINGS[k % 4], kw, tier))
+                    splits = [[4, 4, 4], [1, 5, 6], [6, 6], [12], [2, 9, 1]][k % 5]
+                    sig = OFFSET_SIG if self.jit else nxt()
+                    yield make_case(rng, self.fam, sig, 12, splits, 'every' if k % 3 else 'doubled', 'memory_layout', **kw)
             # float32 traces with a large offset, float64 precision, >= 3 batches (the 2nd batch of a partitioned / template build
             # object always goes through its second kernel), class sets <= 9 and > 9
             for i, (off, n, splits) in enumerate([('a', 40, [13, 13, 14]), ('b', 40, [10, 10, 10, 10]), ('a', 24, [1, 11, 6, 6]),
@@ -772,7 +917,8 @@ class HistKind(Kind):
         f = {'precision': case['prec'] if case['fam'] != 'mia' else case['mia_prec'], 'tdtype': case['tdtype'],
              'block': case['block'], 'mode': case['mode'], 'batches': min(len(case['splits']), 9), 'computes': min(len(comps), 9),
              'nan': 'none' if nn == 0 else ('all' if nn == len(vals) else 'some'), 'exact_sums': exact_regime(case),
-             'batch_of_one': 1 in case['splits']}
+             'batch_of_one': 1 in case['splits'], 'word_axes': len(case.get('dims') or [1]), 'tlayout': case.get('tlayout', 'C'),
+             'dlayout': case.get('dlayout', 'C'), 'slicing': case.get('slicing', 'view')}
         if case['fam'] == 'part':
             f['classes'] = 'auto' if case['auto'] else ('<=9' if len(case['parts']) <= 9 else '>9')
             f['metric'] = case['metric']
@@ -807,6 +953,15 @@ class HistKind(Kind):
             sp = splits[:i] + [splits[i] + splits[i + 1]] + splits[i + 2:]
             cp = comps[:i] + [comps[i] + comps[i + 1]] + comps[i + 2:]
             yield dict(case, splits=sp, computes=cp)
+        # plain C-ordered arrays, views of one parent
+        if case.get('tlayout', 'C') != 'C':
+            yield dict(case, tlayout='C')
+        if case.get('dlayout', 'C') != 'C':
+            yield dict(case, dlayout='C')
+        if case.get('slicing', 'view') != 'view':
+            yield dict(case, slicing='view')
+        if len(case.get('dims') or [1]) > 1:
+            yield dict(case, dims=[W])
         # one sample / one word
         if S > 1:
             for s in range(S):
@@ -817,7 +972,7 @@ class HistKind(Kind):
                 yield c
         if W > 1 and case['fam'] != 'tbuild':
             for w in range(W):
-                yield dict(case, W=1, data=[[r[w]] for r in case['data']])
+                yield dict(case, W=1, dims=[1], data=[[r[w]] for r in case['data']])
         # drop one row (keeping every batch non-empty)
         if n > 2:
             pos = 0
@@ -847,7 +1002,8 @@ RULE = ('histories of update(batch) / compute() on ONE real object: every compos
         'n = 8..40, compute() after no / every / a random subset of the updates, doubled; boundary block: batch of 1 first, batch of 1 '
         'last, all batches of 1, compute between the 2nd and 3rd batch (once, twice), a single batch, sizes 1-2-1, float32 traces with a large offset '
         '(1000 + j/1024, 65536 + j/16) accumulated in float64 over 3-4 batches; 1..4 samples, 1..3 words; '
-        'trace dtypes u8/i8/u16/i16/i32/f32/f64 (floats k/8); every compute() value and processed_traces compared inside Coq with the '
+        'trace dtypes u8/i8/u16/i16/i32/f32/f64 (floats k/8); data with 1..3 word axes; arrays handed to update() as C / Fortran / transposed / '
+        'strided / negative-stride / offset-window / read-only / big-endian, as views of one parent, copies or per-batch arrays; every compute() value and processed_traces compared inside Coq with the '
         'one-shot spec on the rows fed before it; non-trivial = at least two batches and a defined value')
 
 
@@ -884,6 +1040,12 @@ class PartKind(HistKind):
 
     def offset_variant(self, i):
         return {'metric': self.metric, 'parts': (SMALL_SETS + LARGE_SETS)[i % 5]}
+
+    def layout_block(self, lay, shape, slicing, kw, tier):
+        out = super().layout_block(lay, shape, slicing, kw, tier)
+        if out['tlayout'] != 'C':
+            kw['parts'] = LARGE_SETS[len(lay) % 2]        # kernel 1 only for the additional array types of the traces
+        return out
 
 
 class AnovaKind(PartKind):
